@@ -434,6 +434,9 @@ def failed_obligation_keys(meta, f):
 # Bounded stand-ins for ASSUMED callees (labelled bounded, never counted as proved): twin family,
 # the known-finding obligation id, and the committed list of case numbers known to fail.
 BOUNDED = {
+    "C06": [dict(family="proper", obligation="proper_subtype/bounded-standin/proper.sub_vec",
+                 known_cases="contracts/known_proper_cases.txt",
+                 what="sub_vec_union / sub_vec_intersect / sub_vec_diff (assumed in C06; Verus rejects their labelled `continue`): reached through the public ProperSubtypeOps on all same-tag pairs of 52 proper subtypes (number lists over {1,2,3}, string lists over {a,b,c}, two typed-array kinds, allowed and excluded, booleans, diagrams), membership compared for every literal value")],
     "C05": [dict(family="listneg", obligation="list_shape/bounded-standin/listneg.list_is_empty",
                  known_cases="contracts/known_listneg_cases.txt",
                  what="list_is_empty / list_inhabited (assumed decider of C05): `a <: b | c` for tuple shapes with prefix <= 2 over {string, number} and an optional rest in {string, number}, against brute force over all lists of length <= 4 over three basic values"),
@@ -473,7 +476,7 @@ def run_bounded(pid, known):
                     known_cases = {int(x) for x in open(kp).read().split()}
             new = sorted(failed - known_cases)
             still = sorted(failed & known_cases)
-            rows.append(dict(bounded=True, family=sp["family"], what=sp["what"], cases=r.get("cases"), failing=len(failed),
+            rows.append(dict(bounded=True, family=sp["family"], fn=r.get("fn"), what=sp["what"], cases=r.get("cases"), failing=len(failed),
                              known_failing=len(still), new_failing=len(new), known_no_longer_failing=len(known_cases - failed)))
             if still:
                 for k in kn:
